@@ -16,7 +16,8 @@ ID = "C15"
 LEVEL = "fault_enumeration"
 RULE = ("Hypothesis rule-based state machine over a wallet (fixed + freshly generated keys): generate keys, hand out a key with "
         "an annotation from st.text(), restore a handed-out key, dump/load through StringIO, save_wallet + reload with "
-        "Wallet.load and open_or_init_wallet in a private cwd, balance query on a generated ledger; for EVERY save_wallet of a "
+        "Wallet.load and open_or_init_wallet in a private cwd (continuing either with the loaded wallet or with the SAME object, "
+        "which is then saved again later), balance query on a generated ledger; for EVERY save_wallet of a "
         "sequence EVERY crash point is enumerated (before/after file creation, before each written chunk, before close, before "
         "and after the rename) in a forked child that is killed there. Model: (key pairs, unused list, annotations, keys handed "
         "out and not restored). Oracle: load(dump(w)) == w field by field; a hand-out while the model's unused list is non-"
@@ -107,7 +108,8 @@ class Exec:
             f.seek(0)
             w2 = W.Wallet.load(f)
             self.check_same(w, w2, "dump+load")
-            self.w = w2
+            if not (len(op) > 1 and op[1]):
+                self.w = w2
             self.flags["saveload_seen"] = True
         elif k == "saveload":
             old = None
@@ -123,7 +125,10 @@ class Exec:
                 with open("wallet.json") as fh:
                     w2 = W.Wallet.load(fh)
             self.check_same(w, w2, "save_wallet+load")
-            self.w = w2
+            if not (len(op) > 3 and op[3]):
+                self.w = w2                   # continue with the loaded wallet (a new process), else with the SAME object
+            else:
+                self.flags["same_object_saved_again"] = self.flags.get("same_object_saved_again", 0) + 1
             self.flags["saveload_seen"] = True
         elif k == "balance":
             if self.ledger is None:
@@ -220,13 +225,13 @@ class Machine(RuleBasedStateMachine):
     def restore(self, i):
         self.do(["restore", i])
 
-    @rule()
-    def dumpload(self):
-        self.do(["dumpload"])
+    @rule(keep_object=st.booleans())
+    def dumpload(self, keep_object):
+        self.do(["dumpload", keep_object])
 
-    @rule(crash_=st.booleans(), via_script=st.booleans())
-    def saveload(self, crash_, via_script):
-        self.do(["saveload", crash_, via_script])
+    @rule(crash_=st.sampled_from([True, False, False]), via_script=st.booleans(), keep_object=st.booleans())
+    def saveload(self, crash_, via_script, keep_object):
+        self.do(["saveload", crash_, via_script, keep_object])
 
     @rule()
     def balance(self):
@@ -275,7 +280,7 @@ def run(shard, tier, seed):
     Machine.res = res
     Machine.found = {}
     n = 25 if tier == "quick" else 500
-    steps = 14 if tier == "quick" else 30
+    steps = 26 if tier == "quick" else 40
     run_state_machine_as_test(
         hypothesis.seed(env.subseed(seed, ID, shard["i"]))(Machine),
         settings=settings(max_examples=n, stateful_step_count=steps, deadline=None, database=None,
